@@ -17,7 +17,8 @@ def run(module, args, report=None, timeout=600):
         env["PYTHONPATH"] = SITE + os.pathsep + env.get("PYTHONPATH", "")
     p = subprocess.run([sys.executable, "-W", "ignore", "-m",
                         "neuroglancer_scripts.scripts." + module, *args],
-                       capture_output=True, text=True, timeout=timeout, env=env)
+                       capture_output=True, text=True, timeout=timeout, env=env,
+                       cwd=os.environ.get("NGS_VERIF_SCRATCH") or None)
     tail = p.stderr.strip().splitlines()[-1:] if p.returncode else []
     return p.returncode, tail, p.stdout
 
